@@ -680,7 +680,66 @@ def workloads(ctx, rng, root):
                 ctx.violation(f"C06|workload|{mwkey}|root_differs_from_single_process|{what}", dict(where=where, first_difference=d))
         if i == 0:
             ctx.sample(dict(kind="workload", **where, outcome=out["outcome"], events=len(out["log"])))
+    error_paths(ctx, rng, root)
     collective_skeletons(ctx, rng, root)
+
+
+def error_paths(ctx, rng, root):
+    """Invalid requests that a single process rejects before any data is touched (probe larger than the random sample,
+    a cache directory that does not exist, catalogs with different patch sets): every rank must get that same
+    exception and the run must go on to the next collective operation - a rank that alone raises (or alone carries
+    on) leaves the others blocked in a collective for ever."""
+    yaw = data.import_yaw()
+    import yaw.randoms  # noqa: F401
+
+    centers, ref, unk, rnd = workload_frames(11)
+    kw = dict(ra_name="ra", dec_name="dec", weight_name="w", chunksize=40, overwrite=True)
+
+    def p_probe(r, d):
+        gen = yaw.randoms.BoxRandoms(10, 20, -5, 5, seed=3)
+        return yaw.Catalog.from_random(f"{d}/rnd_probe", gen, 50, patch_num=2, probe_size=80, overwrite=True)
+
+    def p_open_missing(r, d):
+        return yaw.Catalog(f"{d}/does_not_exist")
+
+    def p_misaligned(r, d):
+        a = yaw.Catalog.from_dataframe(f"{d}/a", ref, redshift_name="z", patch_centers=centers, **kw)
+        b = yaw.Catalog.from_dataframe(f"{d}/b", unk[unk["pid"] < 2], patch_centers=yaw.AngularCoordinates(centers.data[:2]), **kw)
+        cfg = yaw.Configuration.create(rmin=500.0, rmax=5000.0, zmin=0.1, zmax=1.0, num_bins=3)
+        return yaw.crosscorrelate(cfg, a, b)
+
+    progs = dict(from_random_probe_larger_than_sample=(p_probe, ("ValueError",)),
+                 open_missing_cache=(p_open_missing, ("OSError", "FileNotFoundError", "InconsistentPatchesError")),
+                 crosscorrelate_different_patch_sets=(p_misaligned, ("ValueError", "InconsistentPatchesError")))
+    n = 0
+    for name, (fn, expected) in progs.items():
+        for size in ((2, 3) if ctx.quick else (2, 3, 4)):
+            for rep_ in range(1 if ctx.quick else 3):
+                n += 1
+                d = root / f"err{n}"
+                d.mkdir()
+
+                def prog(r, fn=fn, d=d):
+                    try:
+                        fn(r, str(d))
+                        res = ("returned",)
+                    except Exception as e:  # noqa: BLE001
+                        res = ("raised", type(e).__name__)
+                    # the program goes on: a collective operation that works when all ranks are still in step
+                    cat = yaw.Catalog.from_dataframe(f"{d}/after", ref, redshift_name="z", patch_centers=centers, **kw)
+                    return res + (len(cat),)
+
+                sseed = rng.randrange(1 << 30)
+                out = fakempi.run_world(size, prog, seed=sseed, send_modes=("eager", "sync"))
+                ctx.evaluated(1, ("error_path", name, size, sseed))
+                ctx.validated(1)
+                where = dict(request=name, size=size, schedule_seed=sseed, results=[list(r) if r else None for r in out["results"]])
+                if out["outcome"] == "deadlock":
+                    ctx.violation(f"C06|error_path|{name}|deadlock", dict(where=where, waiting=out["waiting"]))
+                elif out["outcome"] != "ok" or len(set(out["results"])) != 1:
+                    ctx.violation(f"C06|error_path|{name}|ranks_disagree", dict(where=where, errors=[repr(e) for e in out["errors"]]))
+                elif out["results"][0][0] != "raised" or out["results"][0][1] not in expected:
+                    ctx.violation(f"C06|error_path|{name}|root_differs_from_single_process", dict(where=where, expected=list(expected)))
 
 
 def collective_skeletons(ctx, rng, root):
